@@ -1,7 +1,7 @@
 (* C16 — line-ending style does not matter.
    Only statements, each closed by a lemma from Proofs/, with Print Assumptions. *)
 From Coq Require Import ZArith List Bool.
-From Verif Require Import PyStr Normalize NormalizeGen NormalizeProofs Inline Block Doc Entry.
+From Verif Require Import PyStr Normalize NormalizeGen NormalizeProofs Inline Block Doc Entry UnicodeGen RxGen MdDoc.
 Import ListNotations.
 Open Scope Z_scope.
 
@@ -77,7 +77,35 @@ Proof.
   exact (C16_ending_invariance (res (list node)) (core_G px hw) d H1 H2 H3).
 Qed.
 
+(* the same for the complete conversions of the models: HTML output (core, or core + the six inline plugins; escape on or
+   off) and the output of the Markdown renderer *)
+Theorem C16_html_output_ending_invariant : forall px esc hw d,
+  lines_ok d -> unambiguous d -> d <> [] -> html_x px esc hw (show d) = html_x px esc hw (show (to_LF d)).
+Proof. intros px esc hw d H1 H2 H3. unfold html_x. rewrite (C16_core_ast_ending_invariant px hw d H1 H2 H3). reflexivity. Qed.
+
+Definition md_G (hw : bool) (t : str) : res str :=
+  match block_cfg, inline_cfg_x false hw [] with
+  | Some CB, Some dflt =>
+    match doc_parse_rf CB (fun rf => inline_cfg_or false hw rf dflt) (fun x => x) t with
+    | Ok (ast, rf) => Ok (MdDoc.md_doc U rx_renderers_markdown__quote_end_re rx_util__strip_end_re ast rf)
+    | Exn => Exn | Fuel => Fuel
+    end
+  | _, _ => Exn
+  end.
+Lemma md_x_is_G : forall hw s, md_x hw s = md_G hw (parse_src s).
+Proof.
+  intros hw s. unfold md_x, md_G, parse_src. destruct block_cfg as [CB|]; [|reflexivity]. destruct (inline_cfg_x false hw []) as [dflt|]; [|reflexivity].
+  destruct (doc_parse_rf _ _ _ s) as [[ast rf]| |] eqn:E; unfold bind;
+    change (doc_parse_rf CB (fun rf => inline_cfg_or false hw rf dflt) (fun x => x) (run_ops parse_norm_ops s))
+      with (doc_parse_rf CB (fun rf => inline_cfg_or false hw rf dflt) (run_ops parse_norm_ops) s); rewrite E; reflexivity.
+Qed.
+Theorem C16_markdown_output_ending_invariant : forall hw d,
+  lines_ok d -> unambiguous d -> d <> [] -> md_x hw (show d) = md_x hw (show (to_LF d)).
+Proof. intros hw d H1 H2 H3. rewrite !md_x_is_G. exact (C16_ending_invariance (res str) (md_G hw) d H1 H2 H3). Qed.
+
 Print Assumptions C16_ending_invariance.
+Print Assumptions C16_html_output_ending_invariant.
+Print Assumptions C16_markdown_output_ending_invariant.
 Print Assumptions C16_lf_form.
 Print Assumptions C16_missing_final_newline.
 Print Assumptions C16_none_is_empty.
